@@ -341,19 +341,13 @@ def hexBody (upperX : Bool) : List Nat → Option (List Nat)
   | 48 :: 88 :: rest => if upperX then some rest else none
   | _ => none
 
-/-- one flag text: hexadecimal, else decimal if it parses, else a registered flag name.
-    `textForm = false`: xmlReader.Bitmask / jsonReader.Bitmask — prefix `0x`, the digits are an unsigned
-    32-bit pattern (`ParseUint(·,16,32)` then `int32(uint32(·))`, since fix a841a1f);
-    `textForm = true`: bitmasks.go maskUnmarshalText — prefix `0x` or `0X`, the digits are a SIGNED 32-bit
-    number (`ParseInt(·,16,32)`: `0x80000000` is out of range). -/
+/-- one flag text: hexadecimal (an unsigned 32-bit pattern: `ParseUint(·,16,32)` then
+    `int32(uint32(·))`), else decimal if it parses, else a registered flag name.
+    `textForm = false`: xmlReader.Bitmask / jsonReader.Bitmask — prefix `0x`;
+    `textForm = true`: bitmasks.go maskUnmarshalText — prefix `0x` or `0X`. -/
 def maskPart (textForm : Bool) (byName : Table) (p : List Nat) : Option Nat :=
   match hexBody textForm p with
-  | some rest =>
-    if textForm then
-      match parseInt 16 32 rest with
-      | some i => some (toU32 i)
-      | none => none
-    else parseUint 16 32 rest
+  | some rest => parseUint 16 32 rest
   | none => match parseInt 10 32 p with
     | some i => some (toU32 i)
     | none => lookup (pack p) byName
